@@ -106,6 +106,19 @@ class Roles:
             elif self.store_adt is None:
                 self.problems.append('cannot identify the shard store field of %s (%s)' % (work, stores))
             self._field_roles(side, sp, ftypes)
+        # fallback for the re-packing method when it is not called directly from encode/decode
+        for side, sp in SIDES.items():
+            role = '%s.undo' % side
+            if role not in self.fn and self.store_adt:
+                c = []
+                for p, f in facts.fns.items():
+                    if f.impl_self_adt == sp['work'] and f.inputs == ['&mut ' + sp['work']] and f.output in ('()', None):
+                        for b, t in f.body.calls():
+                            g = facts.fns.get(t['callee'].get('path'))
+                            if g is not None and g.impl_self_adt == self.store_adt and len(t['args']) >= 3:
+                                c.append(p)
+                self.problems = [x for x in self.problems if role not in x]
+                self.unique(role, c, 'work method (&mut self) that re-packs a range of the shard store')
         self._store_roles()
         self._param_roles()
 
